@@ -36,6 +36,67 @@ type hreg struct {
 	id      int
 	verdict bool
 	stamp   bool
+	rid     int64  // identifier returned by HandleOutgoing / HandleIncoming
+	tp      string // type it was registered for
+	removed bool   // Remove*Handler was called with (tp, rid)
+}
+
+// removal: pick a registered, accepting handler and ask the library to remove it by the identifier it returned. What
+// removal does to that handler is not part of the property; that every OTHER handler keeps being called, in order, is.
+func removeOne(r *rand.Rand, lists []*[]hreg, remove func(tp string, id int64) error) string {
+	var cand []*hreg
+	for _, l := range lists {
+		for i := range *l {
+			if x := &(*l)[i]; x.verdict && !x.removed {
+				cand = append(cand, x)
+			}
+		}
+	}
+	if len(cand) == 0 {
+		return ""
+	}
+	x := cand[r.Intn(len(cand))]
+	x.removed = true
+	_ = remove(x.tp, x.rid)
+	return fmt.Sprintf("removed handler %d (type %s, id %d)", x.id, x.tp, x.rid)
+}
+
+// others: the call log without the handlers that were asked to be removed
+func others(log []int, lists ...[]hreg) []int {
+	gone := map[int]bool{}
+	for _, l := range lists {
+		for _, x := range l {
+			if x.removed {
+				gone[x.id] = true
+			}
+		}
+	}
+	var out []int
+	for _, id := range log {
+		if !gone[id] {
+			out = append(out, id)
+		}
+	}
+	return out
+}
+
+// expectedLog: all-types handlers then typed ones, in registration order, up to and including the first refusal
+func expectedLog(stopAtRefusal bool, allH, typedH []hreg) []int {
+	var out []int
+	for _, l := range [][]hreg{allH, typedH} {
+		refused := false
+		for _, x := range l {
+			out = append(out, x.id)
+			if !x.verdict {
+				refused = true
+				break
+			}
+		}
+		if refused && stopAtRefusal {
+			break
+		}
+	}
+	return out
 }
 
 func hs(l []hreg) string {
@@ -76,12 +137,7 @@ func outgoingCase(r *rand.Rand, o *hout.Out) {
 		myID, verdict := id, r.Intn(6) > 0
 		id++
 		stamp := r.Intn(3) == 0 // a handler that completes the message (HandleOutgoing is where messages may be modified)
-		if tp == simplefixgo.AllMsgTypes {
-			allH = append(allH, hreg{myID, verdict, stamp})
-		} else {
-			typedH = append(typedH, hreg{myID, verdict, stamp})
-		}
-		h.HandleOutgoing(tp, func(m simplefixgo.SendingMessage) bool {
+		rid := h.HandleOutgoing(tp, func(m simplefixgo.SendingMessage) bool {
 			mu.Lock()
 			log = append(log, myID)
 			mu.Unlock()
@@ -90,6 +146,11 @@ func outgoingCase(r *rand.Rand, o *hout.Out) {
 			}
 			return verdict
 		})
+		if tp == simplefixgo.AllMsgTypes {
+			allH = append(allH, hreg{myID, verdict, stamp, rid, tp, false})
+		} else {
+			typedH = append(typedH, hreg{myID, verdict, stamp, rid, tp, false})
+		}
 	}
 	h.HandleOutgoing("Y", func(simplefixgo.SendingMessage) bool { // another type: must never run
 		mu.Lock()
@@ -105,6 +166,10 @@ func outgoingCase(r *rand.Rand, o *hout.Out) {
 			} else {
 				reg("X")
 			}
+		}
+		rem := ""
+		if r.Intn(3) == 0 {
+			rem = removeOne(r, []*[]hreg{&allH, &typedH}, h.RemoveOutgoingHandler)
 		}
 		ok := r.Intn(8) > 0
 		var terr error
@@ -146,6 +211,13 @@ func outgoingCase(r *rand.Rand, o *hout.Out) {
 		if refused && enq == "1" {
 			o.Fail("C19", "refused-message-transmitted", fmt.Sprintf("round %d: all=%s typed=%s", round, hs(allH), hs(typedH)), op)
 		}
+		// handlers nobody asked to remove keep being called, in order (whatever removal does to the removed one)
+		if want, got := others(expectedLog(true, allH, typedH), allH, typedH), others(log, allH, typedH); ids(want) != ids(got) {
+			o.Fail("C19", "registered-handler-not-called", fmt.Sprintf("round %d: %s; handlers called (other than removed ones): %s, expected %s; all=%s typed=%s", round, rem, ids(got), ids(want), hs(allH), hs(typedH)), op)
+		}
+		if rem != "" {
+			o.Count("C19.out.removal")
+		}
 		o.Nontrivial("C19", op)
 		o.Count(fmt.Sprintf("C19.out.round%d", round))
 	}
@@ -160,17 +232,20 @@ func incomingCase(r *rand.Rand, o *hout.Out) {
 	reg := func(tp string) {
 		myID, verdict := id, r.Intn(6) > 0
 		id++
-		if tp == simplefixgo.AllMsgTypes {
-			allH = append(allH, hreg{myID, verdict, false})
-		} else {
-			typedH = append(typedH, hreg{myID, verdict, false})
-		}
-		h.HandleIncoming(tp, func([]byte) bool {
+		rid := h.HandleIncoming(tp, func(m []byte) bool {
+			if bytes.Contains(m, []byte("\x0135=ZZ\x01")) {
+				return true // the barrier message: not part of the scenario
+			}
 			mu.Lock()
 			log = append(log, myID)
 			mu.Unlock()
 			return verdict
 		})
+		if tp == simplefixgo.AllMsgTypes {
+			allH = append(allH, hreg{myID, verdict, false, rid, tp, false})
+		} else {
+			typedH = append(typedH, hreg{myID, verdict, false, rid, tp, false})
+		}
 	}
 	done := make(chan struct{}, 4)
 	h.HandleIncoming("ZZ", func([]byte) bool { done <- struct{}{}; return true })
@@ -184,23 +259,33 @@ func incomingCase(r *rand.Rand, o *hout.Out) {
 				reg("X")
 			}
 		}
+		rem := ""
+		if r.Intn(3) == 0 {
+			rem = removeOne(r, []*[]hreg{&allH, &typedH}, h.RemoveIncomingHandler)
+		}
 		mu.Lock()
 		log = nil
 		mu.Unlock()
 		h.ServeIncoming([]byte("8=FIX.4.4\x019=5\x0135=X\x0110=000\x01"))
-		// barrier: a message of another type; its own all-types calls are cut off below
-		time.Sleep(2 * time.Millisecond)
-		mu.Lock()
-		l := append([]int{}, log...)
-		mu.Unlock()
+		// barrier: a message of another type, dispatched after the first one by the same Run loop; the scenario's
+		// handlers ignore it, so once its own handler has run the log holds exactly the calls made for the first message
 		h.ServeIncoming([]byte("8=FIX.4.4\x019=6\x0135=ZZ\x0110=000\x01"))
 		select {
 		case <-done:
-		case <-time.After(3 * time.Second):
+		case <-time.After(10 * time.Second):
 			o.Fail("C19", "inbound-dispatch-hang", hs(allH)+" "+hs(typedH))
 		}
+		mu.Lock()
+		l := append([]int{}, log...)
+		mu.Unlock()
 		op := fmt.Sprintf("pool in %s %s", hs(allH), hs(typedH))
 		o.Emit("corr", "C19", op, "log "+ids(l))
+		if want, got := others(expectedLog(false, allH, typedH), allH, typedH), others(l, allH, typedH); ids(want) != ids(got) {
+			o.Fail("C19", "registered-handler-not-called", fmt.Sprintf("inbound round %d: %s; handlers called (other than removed ones): %s, expected %s; all=%s typed=%s", round, rem, ids(got), ids(want), hs(allH), hs(typedH)), op)
+		}
+		if rem != "" {
+			o.Count("C19.in.removal")
+		}
 		o.Nontrivial("C19", op)
 		o.Count(fmt.Sprintf("C19.in.round%d", round))
 	}
@@ -248,6 +333,13 @@ func sessionCase(r *rand.Rand, o *hout.Out) {
 	}
 	// a user handler registered after construction: the message must already be in the store, and it
 	// must see the message exactly as it will be transmitted
+	if r.Intn(2) == 0 {
+		// an application handler registered and removed again by the identifier the library returned: the session's own
+		// store handler must not be the one that disappears
+		aid := h.HandleOutgoing(simplefixgo.AllMsgTypes, func(simplefixgo.SendingMessage) bool { return true })
+		_ = h.RemoveOutgoingHandler(simplefixgo.AllMsgTypes, aid)
+		o.Count("C19.session.removal")
+	}
 	var seen [][]byte
 	refuseAt := 1 + r.Intn(8)
 	calls := 0
